@@ -14,7 +14,7 @@ import (
 func genNondet(w *world) {
 	type row struct{ key, fn, expr, kind, pos string }
 	var rows []row
-	var envs, clocks, rands []row
+	var envs, clocks, rands, zones []row
 	for _, fi := range w.funcs {
 		if offPath(fi) {
 			continue
@@ -41,12 +41,15 @@ func genNondet(w *world) {
 					clocks = append(clocks, row{fkey + "#" + t, fkey, t, "clock", posOf(s.Pos())})
 				case strings.HasPrefix(t, "rand.") || strings.HasPrefix(t, "mathrand.") || strings.HasPrefix(t, "crand."):
 					rands = append(rands, row{fkey + "#" + t, fkey, t, "rand", posOf(s.Pos())})
+				case t == "time.Unix" || t == "time.UnixMilli" || t == "time.UnixMicro" || t == "time.LoadLocation" || t == "time.ParseInLocation" || strings.HasSuffix(t, ".Local"):
+					// these produce / depend on the process-local time zone (TZ)
+					zones = append(zones, row{fkey + "#" + t, fkey, t, "local-zone", posOf(s.Pos())})
 				}
 			}
 			return true
 		})
 	}
-	for _, l := range []*[]row{&rows, &envs, &clocks, &rands} {
+	for _, l := range []*[]row{&rows, &envs, &clocks, &rands, &zones} {
 		sort.Slice(*l, func(i, j int) bool { return (*l)[i].key+(*l)[i].pos < (*l)[j].key+(*l)[j].pos })
 	}
 	var b strings.Builder
@@ -67,6 +70,7 @@ func genNondet(w *world) {
 	wr("envReads", envs)
 	wr("clockReads", clocks)
 	wr("randomUses", rands)
+	wr("localZoneUses", zones)
 	// receiver kind of the relayer assigner: a value receiver cannot keep its score cache between calls
 	recv := "unknown"
 	if fi := w.byKey["x/evm/keeper.msgAssigner.PickValidatorForMessage"]; fi != nil {
